@@ -19,6 +19,7 @@ import CSD.Lemmas.RPFC9
 import CSD.Lemmas.FM18
 import CSD.Lemmas.PFCRange
 import CSD.Lemmas.RPFC10
+import CSD.Lemmas.RPDACIter
 
 namespace CSD.Props.C04
 open CSD
@@ -215,5 +216,23 @@ theorem rpfc_range_models_match_source_text :
 theorem fm_extract_prefix_models_match_source_text :
     Generated.body_FMINDEX_extractPrefix = SourceText.body_FMINDEX_extractPrefix ∧
     Generated.body_FMIter_next = SourceText.body_FMIter_next := ⟨rfl, rfl⟩
+
+/-- **RPDAC `extractPrefix` is exact** (model of `StringDictionaryRPDAC::extractPrefix`: the limits of
+`locatePrefix`, then `IteratorDictStringRPDAC` with `processed = left − 1` — a `size_t` that wraps around for
+the limits `(0, 0)` of an empty result — and `scanneable = right`): over every well-founded grammar and
+sequences representing the dictionary the iterator drains to exactly the members that start with the pattern,
+in order, and to nothing when there is none. -/
+theorem rpdac_extract_prefix_exact (d : RPDAC.D) (S : List Str) (r : RPDAC.Represents d S)
+    (hv : validDict S = true) (hlen : S.length < 2 ^ 64) (p : Str) (hp : PFC.nulFree p) (hne : p ≠ []) :
+    RPDAC.extractPrefix d (RPDAC.bytesNat p) = some ((S.filter (isPrefix p)).map RPDAC.bytesNat) := by
+  obtain ⟨_, hn, hs, _⟩ := PFC.validDict_facts hv
+  exact RPDAC.extractPrefix_represents d S r hn hs hlen p hp hne
+
+/-- The RPDAC iterator model was written against the current text of the C++ functions it mirrors. -/
+theorem rpdac_iterator_models_match_source_text :
+    Generated.body_RPDAC_extractPrefix = SourceText.body_RPDAC_extractPrefix ∧
+    Generated.body_RPDAC_extractTable = SourceText.body_RPDAC_extractTable ∧
+    Generated.body_RPDACIter_ctor = SourceText.body_RPDACIter_ctor ∧
+    Generated.body_RPDACIter_next = SourceText.body_RPDACIter_next := ⟨rfl, rfl, rfl, rfl⟩
 
 end CSD.Props.C04
